@@ -2,6 +2,12 @@ SPEC = {
     "id": "C01",
     "level": "proof",
     "props": ["props/C01.vo"],
+    # the transformers of the Bytes machine that are read off today's source (Tie A): a change of one of these functions breaks the
+    # transfer lemma (or makes the item unavailable) before any input is searched for
+    "tie": ["tie/HandleEquiv.vo", "tie/ReprEquiv.vo", "tie/EditEquiv.vo"],
+    "gen_items": ["src/bytes/raw/allocated.rs:slice_unchecked + explicit_clone", "src/bytes/raw.rs:range_unchecked + from_slice + normalized_from_vec",
+                  "src/bytes.rs:truncate + pop + shrink_to + push_slice; raw.rs:make_unique + take_vec; allocated.rs:shrink_to"],
+    "tieA_required": True,
     "case_libs": ["theories/CasesBytes.vo"],
     "drivers": [{"driver": "bytes", "profiles": ["debug", "release"], "args": ["all", "focus=content"]}],
     "rule": ("corpus of fixed histories (the refuted witnesses of DESIGN.md section 7 first) + seeded structured-random histories of 15-75 ops over pools of up to ~6 handles "
